@@ -435,7 +435,13 @@ def intersects(
     ofm_end_coord: PointXYZ,
 ) -> bool:
     """Checks if the given IFM area overlaps with the given OFM area"""
-    if ifm.shape == prev_ofm.shape and ifm.tiles == prev_ofm.tiles:
+    if (
+        ifm.shape == prev_ofm.shape
+        and ifm.tiles == prev_ofm.tiles
+        and ifm.data_type == prev_ofm.data_type
+        and ifm.layout == prev_ofm.layout
+        and ifm.strides == prev_ofm.strides
+    ):
         # Common case: prev_op.ofm == op.ifm; in this case it suffices to check
         # if the xyz coordinates overlap, which is quick and easy
         res = coords_intersect(ifm_start_coord, ifm_end_coord, ofm_start_coord, ofm_end_coord)
